@@ -25,7 +25,7 @@ from concurrent.futures import ThreadPoolExecutor
 
 from vlib import common
 
-PARSER_VERSION = "11"
+PARSER_VERSION = "13"
 CACHE_DIR = os.path.join(common.VERIF, ".cache", "c06-probes")
 
 # ---------------------------------------------------------------------------------------------
@@ -422,7 +422,10 @@ class X86Sim:
                 self.sp += o[1] if mn == "add" else -o[1]
             return
         if mn == "and" and ops and ops[0] == self.spname:
-            self.sp = None
+            # realignment: the real distance is unknown but irrelevant as long as no access crosses it; a fictitious 1 MiB gap
+            # keeps everything recorded so far (entry-relative) and everything from now on (relative to the new sp) apart
+            if self.sp is not None:
+                self.sp -= 1 << 20
             return
         if mn == "lea":
             d = self.parse_op(ops[0])
@@ -890,8 +893,14 @@ def run_sim(insts, arch):
     for mn, ops in insts:
         if done:
             break
-        if sim.step(mn, ops) == "ret":
-            done = True
+        try:
+            if sim.step(mn, ops) == "ret":
+                done = True
+        except Unparsed:
+            if sim.calls:
+                done = True      # call-site probe: what the epilogue does after the call is of no interest
+                break
+            raise
     if not done:
         raise Unparsed("no ret")
     return sim
@@ -939,6 +948,25 @@ def analyse_callee(sim, n, sig, W):
         rl.sort(key=lambda x: (x[0], x[1]["k"], x[1].get("g", ""), x[1].get("id", 0)))
         res["ret"] = rl
     return res
+
+
+def al_at_call(insts, n):
+    """value the caller loads into AL/EAX before `call g<n>` (SysV: number of vector registers used), None if not a constant"""
+    val = None
+    for mn, ops in insts:
+        if mn == "call" and ops and re.search(r"g%d\b" % n, ops[0]):
+            return val
+        if not ops:
+            continue
+        d = ops[0].strip()
+        if d in ("eax", "al", "rax", "ax"):
+            if mn in ("mov", "movabs") and len(ops) == 2 and re.match(r"^(0x[0-9a-f]+|\d+)$", ops[1].strip()):
+                val = int(ops[1].strip(), 0)
+            elif mn == "xor" and len(ops) == 2 and ops[1].strip() == d:
+                val = 0
+            else:
+                val = None
+    return None
 
 
 def analyse_caller(sim, n, sig, W):
@@ -1114,6 +1142,8 @@ def probe_many(orc, sigs, stats, batch=400, workers=16):
                 out[i] = {"unparsed": str(e)[:200]}
             except (ValueError, KeyError, IndexError, AttributeError, TypeError) as e:
                 out[i] = {"unparsed": "parser: %s: %s" % (type(e).__name__, str(e)[:160])}
+            if sig[2] is not None and orc.arch == "x64" and lab in funcs:
+                out[i]["al"] = al_at_call(funcs[lab], n)
         return out, 1, 0
 
     with ThreadPoolExecutor(workers) as ex:
